@@ -250,6 +250,65 @@ func c02RelatedSteps(c *Ctx) {
 	}
 }
 
+// c02ParamRelatives: one goroutine, one secret; a base call, then the same call with exactly ONE thing changed - the
+// period (multiples, divisors, +-1, 0 for 30; at instants where the steps of all these periods begin in the same second,
+// and at arbitrary ones), the digits, the hash, the instant inside the same step - then the base call again. Whatever
+// identifies "the same request" by less than all of (secret, step, period, digits, hash) - the second a step began in,
+// the step number without the period, the code without the digits - answers a relative from the base's entry.
+func c02ParamRelatives(c *Ctx) {
+	rng := c.RNG.Fork(2030)
+	for w := 0; w < c.N(60, 900); w++ {
+		key := rng.Bytes(20)
+		sec := ref.Base32EncodeNoPad(key)
+		p := gen.Pick(rng, []uint64{30, 30, 60, 15, 10, 1, 2, 120, 3600, 0})
+		pp := p
+		if pp == 0 {
+			pp = 30
+		}
+		d, a := uint8(6+rng.Intn(5)), uint8(rng.Intn(3))
+		// an instant shortly after a multiple of 43200 s: steps of every period dividing 43200 begin in the same second
+		unix := int64(1+rng.Intn(40000))*43200 + int64(rng.Intn(10))
+		if w%3 == 0 {
+			unix = int64(rng.Intn(1 << 31))
+		}
+		base := totpCase{KeyHex: hexs(key), Secret: sec, At: gen.InstantSpec{Unix: unix}, Period: p, Digits: d, Algo: a}
+		var rel []totpCase
+		for _, q := range []uint64{pp * 2, pp * 3, pp * 4, pp * 10, pp / 2, pp / 3, pp / 5, pp + 1, pp - 1, 0, 30, 60, 1, 43200, 86400} {
+			if q == p || (q == 0 && p == 30) || (q == 30 && p == 0) {
+				continue
+			}
+			if q == 0 || q >= 1 {
+				v := base
+				v.Period = q
+				rel = append(rel, v)
+			}
+		}
+		for _, dd := range []uint8{d - 1, d + 1, 6, 8, 10} {
+			if dd >= 1 && dd <= 10 && dd != d {
+				v := base
+				v.Digits = dd
+				rel = append(rel, v)
+			}
+		}
+		for aa := uint8(0); aa < 3; aa++ {
+			if aa != a {
+				v := base
+				v.Algo = aa
+				rel = append(rel, v)
+			}
+		}
+		v := base
+		v.At.Unix = unix - unix%int64(pp) + int64(rng.Intn(int(pp)))
+		rel = append(rel, v)
+		for _, r := range rel {
+			judgeTOTP(c, base)
+			judgeTOTP(c, r)
+			c.R.Count("one_parameter_changed_history_calls", 2)
+		}
+		judgeTOTP(c, base)
+	}
+}
+
 func c02StepWalk(c *Ctx) {
 	rng := c.RNG.Fork(202)
 	for w := 0; w < c.N(12, 150); w++ {
@@ -275,7 +334,7 @@ func init() {
 		ID: "C02",
 		Rule: "cases = instants (0..2^62, step boundaries +-2 s, 2^31/2^32 edges) x nanoseconds x locations x monotonic readings x periods (0,1,..,2^32, larger than the instant) x digits x hashes x arbitrary Skew (unused by generation), each GenerateTOTP result compared with the reference HOTP at floor(unix/period); " +
 			"a reduced differential against the same reference models also runs in a binary built for GOARCH=386 (32-bit int/uint; observed.evaluations_on_a_32bit_build); " +
-			"one-goroutine histories with one secret and parameter set: walks over adjacent steps, and time steps that agree with a base step in their low or high b bits for every b (observed.bit_related_step_history_calls); " +
+			"one-goroutine histories with one secret and parameter set: walks over adjacent steps, and time steps that agree with a base step in their low or high b bits for every b (observed.bit_related_step_history_calls), and a base call alternating with calls that differ from it in exactly one of period, digits, hash or the instant inside the step (observed.one_parameter_changed_history_calls); " +
 			"distinct_nontrivial counts distinct (key,unix second,period,digits,hash) tuples with supported parameters whose code was compared, plus distinct defaults-consistency tuples",
 		Run: func(c *Ctx) {
 			rng := c.RNG.Fork(2)
@@ -353,6 +412,7 @@ func init() {
 			parallelJudge(c, groups, judgeSameSecond)
 			c02StepWalk(c)
 			c02RelatedSteps(c)
+			c02ParamRelatives(c)
 			runArch386(c)
 			// step pairs on one goroutine with one secret and parameter set: instant A, then instant B in another
 			// step whose monotonic reading disagrees with its wall clock (equal to A's reading, or A's plus/minus a
